@@ -272,6 +272,13 @@ def check_compile(spec):
         return thunk
 
     env_specs = env_box(names | set(listed))
+    if _ill_conditioned(e):
+        # the generated text flattens nested products/sums (a*(b*c) -> a*b*c): values
+        # are not compared where rounding may cross a jump; signature and pickling are
+        res.label("ill-conditioned-float-case")
+        env_specs = []
+    elif _needs_fractions(e):
+        env_specs = _fractionize(env_specs)   # exact x/y under re-association
     ok = run_and_compare(res, "compile", e, call(c), env_specs)
     if ok:
         # arity: exactly listed + remaining free variables
